@@ -15,7 +15,10 @@ CORPUS = core.VERIF / "harness" / "corpus" / "C16"
 TRUSTED = [
     "translator/c16.py (get_dtype band chain -> Gen_C16.src_dtype_chain; the three detector-level models -> "
     "Gen_C16.src_simple_wiring / src_sar_wiring / src_sar0_wiring and the parts of the detector each body reads / "
-    "writes -> src_*_touch; fails closed on any other shape)",
+    "writes -> src_*_touch; get_dtype is read by symbolic execution over sets of integers (any decision shape built from "
+    "comparisons with constants, constant tables, unrolled loops, match, helpers), the wrapper bodies after inlining "
+    "private helpers, substituting single-assignment aliases of detector attribute chains and normalising guard forms; "
+    "fails closed on anything else)",
     "correspondence harness: harness/props/c16.py generators, harness/drivers/c16.py, float.hex() -> (m, e) literals; "
     "histories: the driver realises the operations of Model/AdcHist.v as attribute assignments on one CCD object, "
     "detector.image.empty() or Detector.empty() followed by putting the signal back, and calls of the three models "
